@@ -107,6 +107,7 @@ fn run(rng: &mut Rng, idx: u64, tier: Tier) -> CaseOut {
         // network variable that the formula also uses as a proposition)
         let mut pool: Vec<String> = ["x", "xx", "xxx", "xxxx", "y", "z", "v_1", "EX", "3"].iter().map(|s| s.to_string()).collect();
         pool.extend(net_names.iter().cloned());
+        pool.extend(["\u{17e}", "\u{3b1}1", "\u{e9}tat"].iter().map(|s| s.to_string()));
         rng.shuffle(&mut pool);
         let map: HashMap<String, String> = names.iter().cloned().zip(pool.into_iter()).collect();
         g = g.rename_vars(&|v| map.get(v).cloned().unwrap_or_else(|| v.to_string()));
@@ -118,7 +119,7 @@ fn run(rng: &mut Rng, idx: u64, tier: Tier) -> CaseOut {
     }
     if !names.is_empty() && rng.chance(1, 3) {
         // alpha-renaming binder by binder: sibling scopes get different names (more names than nesting depth)
-        let pool: Vec<String> = ["x", "xx", "xxx", "y", "z", "v_1", "EX", "3", "w1", "u", "t", "s9"].iter().map(|s| s.to_string()).collect();
+        let pool: Vec<String> = ["x", "xx", "xxx", "y", "z", "v_1", "EX", "3", "w1", "u", "t", "s9", "\u{17e}", "\u{3b1}1"].iter().map(|s| s.to_string()).collect();
         if let Some(h) = g.rename_per_binder(rng, &pool) {
             if bound_names(&h).len() > f.quant_depth() {
                 kinds.push("rewrite_renaming_more_names_than_depth");
